@@ -72,32 +72,46 @@ Theorem lzma_window_invariant_steps :
   forall DOUT LB size L orc, 0 < size -> size - 1 <= LB -> LB <= DOUT -> 0 <= L ->
     (forall s nreq, Inv DOUT L s -> ok_resp DOUT L s nreq (orc s nreq)) ->
     Inv DOUT L fresh /\
-    (forall s nreq, Inv DOUT L s -> Inv DOUT L (ready_call size orc s nreq) /\ cursor (ready_call size orc s nreq) = cursor s) /\
+    (forall s nreq, Inv DOUT L s -> Inv DOUT L (fst (ready_call size orc s nreq)) /\
+                                    cursor (fst (ready_call size orc s nreq)) = cursor s) /\
     (forall s part, Inv DOUT L s -> 0 <= part -> part <= ready s -> part <= LB ->
         Inv DOUT L (clear LB s part) /\ cursor (clear LB s part) = tout s - part).
 Proof. exact lzma_steps_uniform. Qed.
 
 (* a read never copies from outside the filled part of the buffer nor more than
-   was asked for; what it hands out is exactly count*size contiguous bytes of
-   the decoded stream starting at the cursor, and the cursor advances by that *)
+   was asked for (also when the decoder fails half way); what it hands out is
+   exactly count*size contiguous bytes of the decoded stream starting at the
+   cursor, the cursor advances by that, and a completed call returns
+   min(request, whole samples left in the stream) *)
 Theorem lzma_read_returns_contiguous_stream_bytes :
   forall DOUT LB size L orc, 0 < size -> size - 1 <= LB -> LB <= DOUT -> 0 <= L ->
     (forall s nreq, Inv DOUT L s -> ok_resp DOUT L s nreq (orc s nreq)) ->
     forall fuel s nmemb, Inv DOUT L s -> 0 <= nmemb ->
-    let '(s', n, out) := lzma_read LB size orc fuel s nmemb in
-    Inv DOUT L s' /\ 0 <= n <= nmemb /\ chain (cursor s) out (cursor s') /\ total out = n * size
-    /\ cursor s' = cursor s + n * size /\ cursor s' <= L.
+    let '(s', n, out, st) := lzma_read LB size orc fuel s nmemb in
+    Inv DOUT L s' /\ chain (cursor s) out (cursor s') /\ cursor s' <= L /\
+    (st <> LzErr -> 0 <= n <= nmemb /\ total out = n * size /\ cursor s' = cursor s + n * size) /\
+    (st = LzDone -> n = Z.min nmemb ((L - cursor s) / size)).
 Proof. exact lzma_read_uniform. Qed.
 
-(* a seek (forward, backward with rewind, or inside the window) leaves the cursor
-   on the target byte, or at the end of what could be decoded *)
+(* the decoding loop of a read cannot spin: it ends within 2*nmemb + 2 turns, provided the
+   output buffer has room for one sample beyond the look-back (1 MB vs 4 KB in the build) *)
+Theorem lzma_read_terminates :
+  forall DOUT LB size L orc, 0 < size -> size - 1 <= LB -> LB + size <= DOUT -> 0 <= L ->
+    (forall s nreq, Inv DOUT L s -> ok_resp DOUT L s nreq (orc s nreq)) ->
+    forall fuel s nmemb, Inv DOUT L s -> 0 <= nmemb -> 2 * nmemb + 1 < Z.of_nat fuel ->
+    snd (lzma_read LB size orc fuel s nmemb) <> LzFuel.
+Proof. exact lzma_read_terminates_uniform. Qed.
+
+(* a seek (forward, backward with rewind, or inside the window) keeps the window
+   consistent whatever the decoder does, leaves the cursor on the target byte or at
+   the end of what could be decoded, and terminates *)
 Theorem lzma_seek_lands_on_target_or_end :
-  forall DOUT LB size L orc, 0 < size -> size - 1 <= LB -> LB <= DOUT -> 0 <= L ->
+  forall DOUT LB size L orc, 0 < size -> size - 1 <= LB -> LB + size <= DOUT -> 0 <= L ->
     (forall s nreq, Inv DOUT L s -> ok_resp DOUT L s nreq (orc s nreq)) ->
     forall fuel s bc, Inv DOUT L s -> 0 <= bc ->
-    let s' := lzma_seek DOUT LB size orc fuel s bc in
-    Inv DOUT L s' /\ (cursor s' = bc \/ (cursor s' = tout s' /\ tout s' < bc)).
-Proof. exact lzma_seek_spec. Qed.
+    let '(s', st) := lzma_seek DOUT LB size orc fuel s bc in
+    Inv DOUT L s' /\ (st = LzDone -> cursor s' = Z.min bc L) /\ (L < Z.of_nat fuel -> st <> LzFuel).
+Proof. exact lzma_seek_uniform. Qed.
 
 Theorem lzma_decoder_contract_satisfiable :
   forall DOUT L s nreq, Inv DOUT L s -> ok_resp DOUT L s nreq (full_orc DOUT L s nreq).
